@@ -17,5 +17,6 @@ package converters
 //@   ensures [fields] result1 == nil ==> result0 != nil && result0.Record == record && result0.Lastknownrecord == lastKnownRecord && result0.Block == block && result0.Lastknownblock == lastKnownBlock && result0.Typeflag == tarhdr.Typeflag && result0.Name == tarhdr.Name && result0.Linkname == tarhdr.Linkname && result0.Size == tarhdr.Size && result0.Mode == tarhdr.Mode && result0.UID == tarhdr.Uid && result0.Gid == tarhdr.Gid && result0.Uname == tarhdr.Uname && result0.Gname == tarhdr.Gname && result0.Modtime == tarhdr.ModTime && result0.Accesstime == tarhdr.AccessTime && result0.Changetime == tarhdr.ChangeTime && result0.Devmajor == tarhdr.Devmajor && result0.Devminor == tarhdr.Devminor && result0.Format == tarhdr.Format && result0.Deleted == 0
 
 //@ func DBHeaderToTarHeader
+//@   fresh result0
 //@   property C01 also C02 C03 C04 C06 C07 C12 C13 C16 C17
 //@   ensures [fields] result1 == nil ==> result0 != nil && result0.PAXRecords != nil && result0.Typeflag == dbhdr.Typeflag && result0.Name == dbhdr.Name && result0.Linkname == dbhdr.Linkname && result0.Size == dbhdr.Size && result0.Mode == dbhdr.Mode && result0.Uid == dbhdr.UID && result0.Gid == dbhdr.Gid && result0.Uname == dbhdr.Uname && result0.Gname == dbhdr.Gname && result0.ModTime == dbhdr.Modtime && result0.AccessTime == dbhdr.Accesstime && result0.ChangeTime == dbhdr.Changetime && result0.Devmajor == dbhdr.Devmajor && result0.Devminor == dbhdr.Devminor && result0.Format == dbhdr.Format
